@@ -356,6 +356,18 @@ int main() {
 #ifdef VERIF_N2
     CUBE("N2 (L13)", N2ShieldingTableX, N2ShieldingTableY, N2ShieldingTableZ, N2ShieldingTable, GetN2shieldingInt)
 #endif
+#ifdef VERIF_COVB
+    /* van Dishoeck & Black 1988: a 2-D spline over log10 columns, arguments clamped to the table range */
+    for (int i = 0; i < NX(COShieldingTableX); i++) for (int j = 0; j < NX(COShieldingTableY); j++) {
+        double want = pow(10.0, COShieldingTable[i][j]);
+        judge("CO (VB88)", i, j, 0, want, GetCOshieldingInt1(pow(10.0, COShieldingTableX[i]), pow(10.0, COShieldingTableY[j])));
+        /* beyond an edge the argument is clamped to the edge: the edge node's value */
+        if (i == 0) judge("CO (VB88) below the H2 range", i, j, 0, want, GetCOshieldingInt1(pow(10.0, COShieldingTableX[i] - 2.0), pow(10.0, COShieldingTableY[j])));
+        if (i == NX(COShieldingTableX) - 1) judge("CO (VB88) above the H2 range", i, j, 0, want, GetCOshieldingInt1(pow(10.0, COShieldingTableX[i] + 2.0), pow(10.0, COShieldingTableY[j])));
+        if (j == 0) judge("CO (VB88) below the CO range", i, j, 0, want, GetCOshieldingInt1(pow(10.0, COShieldingTableX[i]), pow(10.0, COShieldingTableY[j] - 2.0)));
+        if (j == NX(COShieldingTableY) - 1) judge("CO (VB88) above the CO range", i, j, 0, want, GetCOshieldingInt1(pow(10.0, COShieldingTableX[i]), pow(10.0, COShieldingTableY[j] + 2.0)));
+    }
+#endif
     FILE *o = fopen("nodes.txt", "w");
     fprintf(o, "%ld %ld %ld\n%s\n", judged, skipped, bad, first);
     fclose(o);
@@ -382,10 +394,10 @@ def shielding_nodes(which):
     from naunet.reactions.reaction import Reaction
     from naunet.reactiontype import ReactionType
 
-    table = {"H2": "L96Table", "CO": "V09Table", "N2": "L13Table"}[which]
+    table = {"H2": "L96Table", "CO": "V09Table", "N2": "L13Table", "COVB": "VB88Table"}[which]
     case = {"shielding_nodes": which}
     with quiet():
-        net = Network([Reaction(["H", "H"], ["H2"], -1.0, -1.0, 1e-17, 0.0, 0.0, ReactionType.GAS_TWOBODY, 1)], required_species=["H2", "CO", "N2", "H"], shielding={which: table})
+        net = Network([Reaction(["H", "H"], ["H2"], -1.0, -1.0, 1e-17, 0.0, 0.0, ReactionType.GAS_TWOBODY, 1)], required_species=["H2", "CO", "N2", "H"], shielding={which.replace("COVB", "CO"): table})
         files = render(net, "dense", RR.RATE_TEMPLATES_CVODE)
     d = Path(tempfile.mkdtemp(dir=scratch()))
     try:
@@ -471,7 +483,7 @@ def run(ctx):
         skipped += sk
         ctx.absorb(viols)
     nodes = {}
-    for which, n, viols in ctx.pmap(shielding_nodes, ["H2", "CO", "N2"]):
+    for which, n, viols in ctx.pmap(shielding_nodes, ["H2", "CO", "N2", "COVB"]):
         nodes[which] = n
         nval += n
         ctx.absorb(viols)
